@@ -199,6 +199,7 @@ var thoroughReady = map[string]bool{
 	"C14": true, // 168 s (full product of imports x namespace forms x positions x name forms)
 	"C15": true, // 17 s
 	"C16": true, // 31 s
+	"C09": true, // 471 s (K=3, KR=2, KH=3 for the heredoc prefixes)
 }
 
 // reducedRun: the accessors into unexported state did not compile; drivers skip the jobs that need them.
